@@ -876,7 +876,9 @@ def install() -> None:
             susp = sum(sum(sys.getsizeof(v, 1) for v in c.locals.values()) for c in tr.suspended)
             tr.max_locals_chain = max(tr.max_locals_chain, chain_sum)
             tr.max_locals_all = max(tr.max_locals_all, chain_sum + susp)
-            if tr.suspended and susp:
+            if tr.suspended:
+                # an assign by a parent block rendered through block.super: it goes to the
+                # outer context, and the suspended copies keep carrying the old total
                 tr.super_assign = True
 
         def raise_for_loop_limit(self, length=1):  # type: ignore[no-untyped-def,override]
